@@ -22,7 +22,10 @@ var p2SliceSizes = []int{4, 8, 12, 16, 20, 24, 28, 32, 36, 40, 48, 64, 100, 512,
 // genP2Set draws a PAR2 file set.
 func genP2Set(rng *rand.Rand, maxFiles int, contents []string, allowBig bool) scen.Set {
 	slice := p2SliceSizes[rng.Intn(len(p2SliceSizes))]
-	switch rng.Intn(6) {
+	switch rng.Intn(7) {
+	case 6:
+		// slices longer than 4 KiB and not a multiple of it (few of them)
+		slice = []int{5000, 8196, 12000, 4100, 16388}[rng.Intn(5)]
 	case 0, 1:
 		slice = []int{4, 8, 16, 64}[rng.Intn(4)]
 	case 2:
@@ -46,6 +49,9 @@ func genP2Set(rng *rand.Rand, maxFiles int, contents []string, allowBig bool) sc
 	budget := 60000
 	for i := 0; i < nf; i++ {
 		n := scen.SizeAround(rng, slice, allowBig && slice >= 64)
+		if slice > 4096 && n > 3*slice {
+			n = 2*slice + rng.Intn(slice)
+		}
 		if nf >= 40 {
 			n = 1 + rng.Intn(2*slice)
 		}
@@ -64,6 +70,9 @@ func genP2Set(rng *rand.Rand, maxFiles int, contents []string, allowBig bool) sc
 	}
 	return set
 }
+
+// p2SymlinkInputs makes newP2Env turn half of the inputs into symlinks.
+var p2SymlinkInputs bool
 
 // p2PreCreate, if set, runs on the materialised directory before the Create
 // under test (used to leave an older archive behind).
@@ -95,6 +104,18 @@ func newP2Env(set scen.Set, base string, g int) (*p2env, error) {
 	e.paths, err = set.Materialize(e.dir)
 	if err != nil {
 		return e, err
+	}
+	if p2SymlinkInputs {
+		// every other input becomes a symbolic link to the real file kept
+		// outside the set directory; Create must protect the file's content
+		for i, p := range e.paths {
+			if i%2 == 0 {
+				real := filepath.Join(root, fmt.Sprintf("real-%d", i))
+				if os.Rename(p, real) == nil {
+					os.Symlink(real, p)
+				}
+			}
+		}
 	}
 	if p2PreCreate != nil {
 		p2PreCreate(e.dir, e.idx, e.paths)
